@@ -1,6 +1,7 @@
 (* C07 — Stack, item-size, call-depth, loop and tape limits hold at every step (stack and tape parts). *)
 From Coq Require Import ZArith List.
-From TS Require Import Bytes State Prog Ops Interp StateLemmas Closure Limits Pointer.
+From Coq Require Import String.
+From TS Require Import Bytes State Prog Ops Interp StateLemmas Closure Limits Pointer Discipline Budget Termination.
 Import ListNotations.
 Local Open Scope nat_scope.
 
@@ -41,6 +42,92 @@ Theorem C07_pointer_monotone :
   ptr_out {| fr_tid := tid; fr_ptr := ptr |} st (run_tape orc cfg fuel tid ptr st).
 Proof. exact run_tape_ptr. Qed.
 
+(* ---------------- call budget, loop bound, termination (proofs/Budget.v, proofs/Termination.v) ---------------- *)
+
+(* the call counter of every tape object is <= max 0 callstack_limit in every final or raising state *)
+Theorem C07_call_counters_capped_run_script :
+  forall orc cfg fuel script vals,
+  match run_script orc cfg fuel script vals with
+  | Done _ _ st' | Raised _ _ st' => forall t, (count_of st' t <= Z.max 0 (c_limit cfg))%Z
+  | _ => True
+  end.
+Proof. exact run_script_capped. Qed.
+
+Theorem C07_call_counters_capped_run_auth_scripts :
+  forall orc cfg fuel scripts vals,
+  match run_auth_scripts orc cfg fuel scripts vals with
+  | AuthVerdict _ st' => forall t, (count_of st' t <= Z.max 0 (c_limit cfg))%Z
+  | _ => True
+  end.
+Proof. exact run_auth_scripts_capped. Qed.
+
+(* CALL and EVAL (also inside MERKLEVAL / TAPROOT) at or over the budget raise ScriptExecutionError and change nothing *)
+Theorem C07_call_over_budget_refused :
+  forall orc cfg run fr st, (c_limit cfg <= to_count (cur fr st))%Z ->
+  interp orc cfg run OP_CALL fr st = Raised ScriptExecutionError fr st.
+Proof. exact OP_CALL_over_budget. Qed.
+
+Theorem C07_eval_over_budget_refused :
+  forall orc cfg run fr st, (c_limit cfg <= to_count (cur fr st))%Z ->
+  match interp orc cfg run eval_body fr st with
+  | Raised e fr' st' => e = ScriptExecutionError /\ fr' = fr /\ st' = st
+  | _ => False
+  end.
+Proof. exact eval_body_over_budget. Qed.
+
+(* ... and never start a sub-tape whose counter exceeds the limit *)
+Theorem C07_call_starts_within_budget :
+  forall orc cfg run fr st, fr_tid fr < List.length (st_tapes st) ->
+  interp orc cfg run OP_CALL fr st = interp orc cfg (within_budget cfg run) OP_CALL fr st.
+Proof. exact OP_CALL_bounded. Qed.
+
+Theorem C07_eval_starts_within_budget :
+  forall orc cfg run fr st,
+  interp orc cfg run eval_body fr st = interp orc cfg (within_budget cfg run) eval_body fr st.
+Proof. exact eval_body_bounded. Qed.
+
+(* one LOOP instruction runs its body at most callstack_limit times, whatever the body does *)
+Theorem C07_loop_iterations_bounded :
+  forall orc cfg run fr st, run_loops orc cfg run OP_LOOP fr st <= Z.to_nat (c_limit cfg).
+Proof. exact loop_bounded. Qed.
+
+(* termination: from every state, tape and pointer some fuel suffices, and every larger fuel gives the same result *)
+Theorem C07_every_run_terminates :
+  forall orc cfg tid ptr st,
+  exists fuel r, r <> OutOfFuel /\ forall fuel', fuel <= fuel' -> run_tape orc cfg fuel' tid ptr st = r.
+Proof. exact run_tape_total. Qed.
+
+Theorem C07_run_script_terminates :
+  forall orc cfg script vals,
+  exists fuel r, r <> OutOfFuel /\ forall fuel', fuel <= fuel' -> run_script orc cfg fuel' script vals = r.
+Proof. exact run_script_total. Qed.
+
+Theorem C07_run_auth_scripts_terminates :
+  forall orc cfg scripts vals,
+  exists fuel r, r <> AuthFuel /\ forall fuel', fuel <= fuel' -> run_auth_scripts orc cfg fuel' scripts vals = r.
+Proof. exact run_auth_scripts_total. Qed.
+
+(* the fuel is not an observable: a result that is not "out of fuel" is the result at every larger fuel *)
+Theorem C07_fuel_monotone :
+  forall orc cfg f tid ptr st r,
+  run_tape orc cfg f tid ptr st = r -> r <> OutOfFuel -> forall k, run_tape orc cfg (f + k) tid ptr st = r.
+Proof. exact run_tape_fuel_mono. Qed.
+
+(* plain monotonicity of a tape's call counter is FALSE (a definition's counter is overwritten by its caller's):
+   the refutation is kept so that nobody states it by accident *)
+Example C07_count_not_monotone_refuted := count_not_monotone.
+
+Print Assumptions C07_call_counters_capped_run_script.
+Print Assumptions C07_call_counters_capped_run_auth_scripts.
+Print Assumptions C07_call_over_budget_refused.
+Print Assumptions C07_eval_over_budget_refused.
+Print Assumptions C07_call_starts_within_budget.
+Print Assumptions C07_eval_starts_within_budget.
+Print Assumptions C07_loop_iterations_bounded.
+Print Assumptions C07_every_run_terminates.
+Print Assumptions C07_run_script_terminates.
+Print Assumptions C07_run_auth_scripts_terminates.
+Print Assumptions C07_fuel_monotone.
 Print Assumptions C07_stack_limits_run_script.
 Print Assumptions C07_stack_limits_run_auth_scripts.
 Print Assumptions C07_every_action_keeps_limits.
